@@ -2,7 +2,7 @@
 import ast
 
 from ..loader import AnalysisError, ClassInfo, norm_stmt
-from ..small import FoldError, fold
+from ..small import FoldError, UnrollError, fold, subst_fold, unroll_for
 
 GEO = "tools/geometric.py"
 BASE = "covmodel/base.py"
@@ -313,9 +313,19 @@ def bookkeeping(ctx, rule="R12.3"):
     T = "covmodel/tools.py"
     sl = prog.func(T, "set_len_anis")
     asg = [norm_stmt(s) for s in ast.walk(sl) if isinstance(s, ast.Assign)]
-    ok = "out_anis[i - 1] = ls_tmp[i] / ls_tmp[0]" in asg and "out_len_scale = ls_tmp[0]" in asg
-    loops = [s for s in ast.walk(sl) if isinstance(s, ast.For) and any(norm_stmt(x) == "out_anis[i - 1] = ls_tmp[i] / ls_tmp[0]" for x in s.body)]
-    ok = ok and len(loops) == 1 and ast.unparse(loops[0].iter) == "range(1, dim)"
+    ok = "out_len_scale = ls_tmp[0]" in asg
+    loops = [s for s in ast.walk(sl) if isinstance(s, ast.For) and any(isinstance(x, ast.Assign) and isinstance(x.targets[0], ast.Subscript) and ast.unparse(x.targets[0].value) == "out_anis" for x in s.body)]
+    ok = ok and len(loops) == 1 and all(isinstance(x, ast.Assign) for x in loops[0].body)
+    if ok:
+        # static unrolling for dim = 2..4 (ls_tmp has been padded to length dim): the writes must be out_anis[k] = ls_tmp[k + 1] / ls_tmp[0]
+        for dim in (2, 3, 4):
+            try:
+                its = unroll_for(loops[0], {"ls_tmp": dim, "out_anis": dim - 1}, {"dim": dim})
+            except UnrollError:
+                ok = False
+                break
+            writes = sorted(norm_stmt(subst_fold(x, b, {"ls_tmp": dim})) for b in its for x in loops[0].body if isinstance(x.targets[0], ast.Subscript))
+            ok = ok and writes == sorted("out_anis[%d] = ls_tmp[%d] / ls_tmp[0]" % (k, k + 1) for k in range(dim - 1))
     ctx.check(ok, rule, T + "::set_len_anis", "a list of length scales redefines anis[i-1] = len[i]/len[0] for i = 1..dim-1 and len_scale = len[0]", "ratios")
     ok = "out_anis = set_anis(dim, anis)" in asg
     ctx.check(ok, rule, T + "::set_len_anis", "a scalar length scale keeps the given ratios (padded by set_anis)", "keep-anis")
